@@ -125,7 +125,26 @@ def red_inputs(rng, name, n, m):
     c = [("0", 0), ("mod", m), ("2mod", 2 * m), ("4mod", 4 * m), ("w*mod", w * m), ("mod*mod", m * m), ("(B^n-1)*mod", (Bn - 1) * m),
          ("mod-1", m - 1), ("mod*mod-1", m * m - 1), ("max", lim - 1), ("k*mod", rng.randrange(Bn) * m),
          ("gen", rng.randrange(lim)), ("gen", rng.randrange(m * m)), ("B^n", Bn), ("B^n*(mod-1)", Bn * (m - 1)), ("mod*B^n-mod", m * Bn - m)]
+    if name == "zzRedBarr":
+        # inputs for which the Barrett quotient estimate is short by 1 and by 2 (both correction steps fire)
+        want = {1: 2, 2: 2}
+        for _ in range(400):
+            a = rng.randrange(lim)
+            k = barr_corrections(a, m, n)
+            if want.get(k, 0) > 0:
+                want[k] -= 1
+                c.append(("barr:corr%d" % k, a))
+            if not any(want.values()):
+                break
     return [(k, a) for k, a in c if 0 <= a < lim]
+
+
+def barr_corrections(a, m, n):
+    """number of `a -= mod` steps that the Barrett reduction of the code needs for this input"""
+    mu = (1 << (128 * n)) // m
+    q = ((a >> (64 * (n - 1))) * mu) >> (64 * (n + 1))
+    M = 1 << (64 * (n + 1))
+    return ((a % M - (q * m) % M) % M) // m
 
 
 def neg_inv64(m0):
@@ -272,7 +291,10 @@ def gen_mod_cases(ctx, thorough):
             cr = name in ("zzRedCrand", "zzRedCrandMont")
             if cr and n < 2:
                 continue
-            for m in moduli(rng, n, odd=(name != "zzRedBarr" and name != "zzRedCrand"), crandall=cr, k=km):
+            ms = moduli(rng, n, odd=(name != "zzRedBarr" and name != "zzRedCrand"), crandall=cr, k=km)
+            if name == "zzRedBarr":
+                ms = ms[:km - 1] + [(1 << (64 * (n - 1))) + 1 + (2 if n == 1 else 0)]   # small top word: estimate short by 2
+            for m in ms:
                 if name == "zzRedCrandMont" and m % 2 == 0:
                     continue
                 for key, a in red_inputs(rng, name, n, m):
@@ -303,6 +325,18 @@ def gen_helper_cases(ctx):
             cases.append(("zzAddMulW", "h", ["s" + Wd(b, n), "s" + Wd(a, n), "n%d" % n, "w%d" % w], None))
             cases.append(("zzSubW", "h", ["s" + Wd(0, n), "s" + Wd(a, n), "n%d" % n, "w%d" % w], None))
         cases.append(("zzSub", "h", ["s" + Wd(0, n), "s" + Wd(a, n), "s" + Wd(b, n), "n%d" % n], None))
+        Bn_ = 1 << (64 * n)
+        for x_, y_ in ((a, b), (Bn_ - 1, 1 if n else 0), (Bn_ - 1, Bn_ - 1), (a, (Bn_ - a) % Bn_)):
+            cases.append(("zzAdd", "h", ["s" + Wd(0, n), "s" + Wd(x_, n), "s" + Wd(y_, n), "n%d" % n], None))
+            cases.append(("zzAdd2", "h", ["s" + Wd(x_, n), "s" + Wd(y_, n), "n%d" % n], None))
+            cases.append(("zzSub", "h", ["s" + Wd(0, n), "s" + Wd(y_, n), "s" + Wd(x_, n), "n%d" % n], None))
+            cases.append(("zzSub2", "h", ["s" + Wd(y_, n), "s" + Wd(x_, n), "n%d" % n], None))
+        for w in (0, 1, B - 1):
+            cases.append(("zzAddW", "h", ["s" + Wd(0, n), "s" + Wd(Bn_ - 1, n), "n%d" % n, "w%d" % w], None))
+            cases.append(("zzAddW", "h", ["s" + Wd(0, n), "s" + Wd(a, n), "n%d" % n, "w%d" % w], None))
+        for w in (1, 2, 3, (1 << 32), (1 << 32) - 1, rng.randrange(1, 1 << 32)):
+            cases.append(("zzModW2", "h", ["s" + Wd(a, n), "n%d" % n, "w%d" % w], None))
+            cases.append(("zzModW2", "h", ["s" + Wd(Bn_ - 1, n), "n%d" % n, "w%d" % w], None))
         cases.append(("zzSub2", "h", ["s" + Wd(b, n), "s" + Wd(a, n), "n%d" % n], None))
         for m in (0, 1, 3):
             c = rnd_words(rng, m)
@@ -352,8 +386,8 @@ def sf_differs(line_out, nres):
 VG_RE_MARK = re.compile(r"^@@ (.*)$")
 VG_COND = "Conditional jump or move depends on uninitialised value"
 VG_ADDR = "Use of uninitialised value of size"
-# the accept/reject branch of beltKWPUnwrap on the verdict of the regular comparison is inherent
-VG_EXPECTED_TOP = {"beltKWPUnwrap"}
+# the accept/reject branch on the verdict of the regular comparison is inherent
+VG_EXPECTED = {"kwp": "beltKWPUnwrap", "prim dwp": "beltDWPUnwrap", "prim che": "beltCHEUnwrap"}
 
 
 def run_valgrind(ctx, exe, lines, timeout=1500):
@@ -392,7 +426,9 @@ def run_valgrind(ctx, exe, lines, timeout=1500):
 
 
 def unexpected(conds):
-    return [(op, fr) for op, fr in conds if not (fr and fr[0] in VG_EXPECTED_TOP and op and op.startswith("kwp "))]
+    def exp(op, fr):
+        return any(op and op.startswith(k + " ") and fr and fr[0] == f for k, f in VG_EXPECTED.items())
+    return [(op, fr) for op, fr in conds if not exp(op, fr)]
 
 
 # ------------------------------------------------------------------------------ run
@@ -462,6 +498,17 @@ def kwp_lines(ctx, exe):
             hb = bytearray(bytes.fromhex(h)); hb[rng.randrange(16)] ^= 0x80
             lines.append("kwp %s %s %s" % (key, hb.hex(), tok)); expect.append("513 -")
     return lines, expect
+
+
+def prim_lines(ctx):
+    rng = ctx.rng
+    out = []
+    for name in ("ecb", "cbc", "cfb", "ctr", "dwp", "che", "hmac", "belthash", "bash256", "bash384", "bash512", "krp"):
+        for ld in ((16, 33, 64) if name in ("ecb", "cbc") else (12,) if name == "krp" else (0, 17, 64, 200)):
+            key = hexs([rng.getrandbits(8) for _ in range(rng.choice([16, 24, 32]) if name != "hmac" else rng.choice([5, 32, 47]))])
+            out.append("prim %s %s %s %s" % (name, key, hexs([rng.getrandbits(8) for _ in range(16)]),
+                                           hexs([rng.getrandbits(8) for _ in range(ld)])))
+    return out
 
 
 def to_cmp_line(name, args, ed):
@@ -609,7 +656,7 @@ def run(ctx):
     have_vg = subprocess.run(["sh", "-c", "command -v valgrind"], capture_output=True).returncode == 0
     if have_vg:
         exe_rel = ctx.cc("harness/c14.c", "rel", name="c14-rel")
-        step = 1 if thorough else 4
+        step = 1 if thorough else 2
         # every routine keeps its boundary classes; the long position sweeps are thinned
         vg_lines, per = [], {}
         for l in ir_lines:
@@ -617,7 +664,13 @@ def run(ctx):
             per[f] = per.get(f, 0) + 1
             if per[f] % step == 1 % step or per[f] <= 12:
                 vg_lines.append(l)
-        vg_lines += sv_lines[:: (1 if thorough else 2)] + kw_lines
+        pr_lines = prim_lines(ctx)
+        pr_out, pr_err, prc = ctx.run_lines(exe, pr_lines)
+        for l, o in zip(pr_lines, pr_out):
+            if not o.startswith("0 1 "):
+                ctx.notes.append("prim line failed functionally: %s -> %s" % (l[:80], o[:60]))
+        ctx.cov["prim_ops"] = len(pr_lines)
+        vg_lines += sv_lines[:: (1 if thorough else 2)] + kw_lines + pr_lines
         vg_conds, naddr, tail, ok = run_valgrind(ctx, exe_rel, vg_lines)
         vg_unexp = unexpected(vg_conds)
         ctx.cov["valgrind_ops"] = len(vg_lines)
